@@ -10,11 +10,11 @@ theorem newSheet_full (s s' : St) (n : Name) (r : Option Nat) (h : newSheet s n 
     s' = s ∨ (validName n = true ∧ (∀ sh ∈ s.sheets, fold sh.name ≠ fold n) ∧
       s' = { s with
         count := s.count + 1
-        ctypes := s.ctypes ++ [maxOf (s.sheets.map (·.id)) + 1]
-        sheetMap := mapSet s.sheetMap n (maxOf (s.sheets.map (·.id)) + 1)
-        parts := partSet s.parts (maxOf (s.sheets.map (·.id)) + 1) ⟨false, 0⟩
-        rels := s.rels ++ [⟨maxOf (s.rels.map (·.rid)) + 1, maxOf (s.sheets.map (·.id)) + 1⟩]
-        sheets := s.sheets ++ [⟨n, maxOf (s.sheets.map (·.id)) + 1, maxOf (s.rels.map (·.rid)) + 1, .visible⟩] }) := by
+        ctypes := s.ctypes ++ [newSheetID s]
+        sheetMap := mapSet s.sheetMap n (newSheetID s)
+        parts := partSet s.parts (newSheetID s) ⟨false, 0⟩
+        rels := s.rels ++ [⟨maxOf (s.rels.map (·.rid)) + 1, newSheetID s⟩]
+        sheets := s.sheets ++ [⟨n, newSheetID s, maxOf (s.rels.map (·.rid)) + 1, .visible⟩] }) := by
   unfold newSheet at h
   split at h
   · cases h
@@ -209,7 +209,7 @@ theorem step_pb (s : St) (op : Op) (hi : Inv s) (hp : PB s) : PB (step s op).1 :
     · rename_i s' r hn
       rcases newSheet_full s s' n r hn with rfl | ⟨_, hf, rfl⟩
       · exact hp
-      · exact pb_new s hp n hf
+      · exact pb_new s hp n (newSheetID s) (by have := newSheetID_gt s; omega) hf
     · exact hp
   | delete n =>
     simp only [step]
@@ -270,10 +270,8 @@ theorem step_pb (s : St) (op : Op) (hi : Inv s) (hp : PB s) : PB (step s op).1 :
     split
     · rename_i s' hd
       unfold setDefinedName at hd
-      dsimp only at hd
-      split at hd
-      · cases hd
-      · cases hd; exact inv_defs_irrelevant_pb s _ hp
+      repeat' split at hd
+      all_goals first | (cases hd; exact inv_defs_irrelevant_pb s _ hp) | cases hd
     · exact hp
   | setcell n v =>
     simp only [step]
@@ -496,6 +494,25 @@ theorem setSheetName_err (s : St) (hi : Inv s) (hp : PB s) (a b : Name) (e : Err
             · cases h
           · cases h
 
+@[simp] theorem fact_definedNameScopeResolved : Facts.C16.definedNameScopeResolved = true := rfl
+
+theorem setDefinedName_err (s : St) (k : Nat) (sc : Name) (e : Err) (h : setDefinedName s k sc = .error e) : ¬ Bad e := by
+  unfold setDefinedName at h
+  simp only [fact_definedNameScopeResolved, Bool.not_true, Bool.false_eq_true, if_false] at h
+  split at h
+  · rename_i e' hs
+    cases h
+    unfold getDefinedNameScope at hs
+    split at hs
+    · cases hs
+    · split at hs
+      · rename_i e'' hg; cases hs; exact getSheetIndex_err _ _ _ hg
+      · cases hs; exact not_bad_of_ne (by decide) (by decide)
+      · cases hs
+  · split at h
+    · cases h; exact not_bad_of_ne (by decide) (by decide)
+    · cases h
+
 theorem step_not_bad (s : St) (op : Op) (hi : Inv s) (hp : PB s) (e : Err) (h : (step s op).2 = some e) : ¬ Bad e := by
   cases op with
   | new n =>
@@ -558,11 +575,7 @@ theorem step_not_bad (s : St) (op : Op) (hi : Inv s) (hp : PB s) (e : Err) (h : 
     · cases h
     · rename_i e' hn
       cases h
-      unfold setDefinedName at hn
-      dsimp only at hn
-      split at hn
-      · cases hn; exact not_bad_of_ne (by decide) (by decide)
-      · cases hn
+      exact setDefinedName_err s _ _ _ hn
   | setcell n v =>
     simp only [step] at h
     split at h
